@@ -252,6 +252,7 @@ def run_case(idx, rng, P, rep):
         n_calls = len(obj.calls)
         kind = rng.choice(['a', 's', 'sub.x', 'sub.y', 'sub.b.y', 'other.x', 'replace-sub', 'mutate', 'meta', 'a', 'sub.x'])
         expect = []
+        replaced = False
         if kind == 'a':
             obj.a = tokv()
             expect = ['m_own'] + (['on_a'] if 'watch-own-method' in hist else [])
@@ -276,7 +277,10 @@ def run_case(idx, rng, P, rep):
         elif kind == 'replace-sub':
             had = isinstance(obj.sub, param.Parameterized)
             obj.sub = Sub(x=tokv(), y=tokv(), b=Sub(y=tokv()))
-            expect = None      # attach/replace: calls depend on the old values; only isolation is checked
+            # attach/replace with all-new values: m_sub runs exactly once; whether m_deep runs depends on the old
+            # sub-object (C07's business), but never more than once
+            expect = None
+            replaced = True
         elif kind == 'mutate':
             obj.l.append(tokv())
             obj.extra['list'].append(tokv())
@@ -294,6 +298,9 @@ def run_case(idx, rng, P, rep):
             viol(f'not-independent/{"calls" if diff == [("attr", "calls")] else diff[0][0]}', f'{mech}: {kind} on the {side} changed the other '
                  f'object: {diff}')
         got = obj.calls[n_calls:]
+        if replaced and (got.count('m_sub') != 1 or got.count('m_deep') > 1 or set(got) - {'m_sub', 'm_deep'}):
+            viol(f'dependency-not-working-on-{side}/{kind}', f'{mech}: after {kind} on the {side} its dependent methods ran {got}, expected m_sub once '
+                 f'and m_deep at most once')
         if expect is not None and sorted(got) != sorted(expect):
             viol(f'dependency-not-working-on-{side}/{kind}', f'{mech}: after {kind} on the {side} its dependent methods ran {got}, expected {expect}')
     rep.case((mech.rstrip('012345'), tuple(hist), tuple(div)), nontrivial=flags['sub'] or flags['meta'] or flags['mut'])
